@@ -108,6 +108,16 @@ def run(model: Model, rep: Report) -> None:
         tests = [unparse(t) for (t, pol) in _gt16(hh, c)] + [unparse(t) for t in _pe16(hh, c)]
         guarded = any("self.curpath[-1][0]" in t.replace(" ", "") and "'h'" in t for t in tests)
         r15.check(guarded, site(hh, c), hh.qualname, f"{unparse(c)} : only when the last segment of the current path is not 'h'", why="a second close segment is appended to a closed subpath: `re s`, `re b`, `re h f` and `m l l l h s` end in `hh`, paint_path does not recognise the rectangle (or the single line) and reports a curve with the start point twice")
+    r16 = rep.rule("C16-R16", "GUARD", "paint_path drops the point before a closing h only when the segment that ends there is a straight line back to the start (`l h`): the end point of a curve segment is never dropped", 1)
+    from ..util import guard_conjuncts as _gc16
+
+    pp16 = model.func("pdfminer.converter.PDFLayoutAnalyzer.paint_path")
+    pops = [c for c in walk_no_nested(pp16.node) if isinstance(c, ast.Call) and (dotted(c.func) or "") == "pts.pop"]
+    if not pops:
+        raise AnchorMissing("paint_path: pts.pop() not found")
+    for c in pops:
+        g16 = _gc16(pp16, c, innermost=True)
+        r16.check(any(x.replace('"', "'") in ("shape[-2:]=='lh'", "'lh'==shape[-2:]") for x in g16), site(pp16, c), pp16.qualname, "pts.pop() runs under shape[-2:] == 'lh'", why=f"guards {sorted(g16)}: a closed subpath whose last *curve* segment ends on the start point (a circle of four Beziers closed with h) loses that segment's end point")
     hn = H("n")
     _, _, clears = effect(hn)
     r2.check(clears, site(hn), hn.qualname, "`n` ends the path: clears it without painting", why="curpath not cleared")
